@@ -98,6 +98,21 @@ func (b *BackendConn) Close() {
 	}()
 }
 
+// CloseWith sends a close frame with the given code (1001 going away, 1011 internal error, ...) and tears the
+// connection down shortly afterwards.
+func (b *BackendConn) CloseWith(code int) {
+	b.wmu.Lock()
+	b.conn.WriteControl(websocket.CloseMessage, websocket.FormatCloseMessage(code, "bye"), time.Now().Add(time.Second))
+	b.wmu.Unlock()
+	go func() {
+		select {
+		case <-b.closeCh:
+		case <-time.After(200 * time.Millisecond):
+		}
+		b.conn.Close()
+	}()
+}
+
 // Abort tears the TCP connection down at once (unread data may be lost).
 func (b *BackendConn) Abort() { b.conn.Close() }
 
